@@ -20,6 +20,8 @@
  *   HA <dur>  timerlist_add_duration      HD <k>  timerlist_del of the k-th added (if still in)
  *   HE <now>  clock := now; timerlist_expire
  * output: "r <res> <val>"  "cb <kind> <data> <now>"  "poll <timeout> <now>"
+ *         "m ..." lines: the concrete call about to be made and the virtual clock, for the independent
+ *         monitor only (never compared with the model)
  *         heap level: "hop A <expire>" | "hop D <id>" | "hop E <now>", "hf <id>" per expired timer,
  *         then "hs <size> id:exp:pos ..." and "hv <timerlist_debug_is_valid_heap>"
  */
@@ -136,6 +138,8 @@ static void api(const char *line)
 		qb_loop_timer_handle h = 0;
 		int32_t res;
 		next_random = strtol(a4, NULL, 0);
+		printf("m A %ld %" PRIu64 " %ld %" PRIu64 "\n", strtol(a1, NULL, 0), (uint64_t)strtoull(a2, NULL, 0),
+		       strtol(a3, NULL, 0), vclk);
 		res = qb_loop_timer_add(loop, (enum qb_loop_priority)strtol(a1, NULL, 0), strtoull(a2, NULL, 0),
 					(void *)(intptr_t)strtol(a3, NULL, 0), timer_cb, &h);
 		if (n_issued < MAXH) {
@@ -145,25 +149,32 @@ static void api(const char *line)
 		break;
 	}
 	case 'D':
+		printf("m D %" PRIu64 " %" PRIu64 "\n", resolve(a1), vclk);
 		printf("r %d 0\n", qb_loop_timer_del(loop, resolve(a1)));
 		break;
 	case 'X':
+		printf("m X %" PRIu64 " %" PRIu64 "\n", resolve(a1), vclk);
 		printf("r 0 %" PRIu64 "\n", qb_loop_timer_expire_time_get(loop, resolve(a1)));
 		break;
 	case 'R':
+		printf("m R %" PRIu64 " %" PRIu64 "\n", resolve(a1), vclk);
 		printf("r 0 %" PRIu64 "\n", qb_loop_timer_expire_time_remaining(loop, resolve(a1)));
 		break;
 	case 'U':
+		printf("m U %" PRIu64 " %" PRIu64 "\n", resolve(a1), vclk);
 		printf("r 0 %d\n", qb_loop_timer_is_running(loop, resolve(a1)));
 		break;
 	case 'M':
+		printf("m M %" PRIu64 "\n", vclk);
 		printf("r 0 %d\n", qb_loop_timer_msec_duration_to_expire(loop->timer_source));
 		break;
 	case 'J':
+		printf("m J %ld %ld\n", strtol(a1, NULL, 0), strtol(a2, NULL, 0));
 		printf("r %d 0\n", qb_loop_job_add(loop, (enum qb_loop_priority)strtol(a1, NULL, 0),
 						   (void *)(intptr_t)strtol(a2, NULL, 0), job_cb));
 		break;
 	case 'S':
+		printf("m S\n");
 		qb_loop_stop(loop);
 		break;
 	case 'T':
@@ -261,10 +272,14 @@ int main(void)
 		}
 		if (line[0] == 'I') {
 			unsigned long long r = 1, c = 1, s = 0;
-			sscanf(line + 1, " %lli %lli %lli", (long long *)&r, (long long *)&c, (long long *)&s);
+			char *e1, *e2;
+			r = strtoull(line + 1, &e1, 0);
+			c = strtoull(e1, &e2, 0);
+			s = strtoull(e2, NULL, 0);
 			fresh();
 			res_ns = r; vclk = c; cstep = s;
 			clock_virtual = 1;
+			printf("m I %llu %llu %llu\n", r, c, s);
 			loop = qb_loop_create();
 			timerlist_init(&utl);
 			utl_live = 1;
@@ -290,8 +305,10 @@ int main(void)
 			if (n_dirs > 0) {
 				turn = 0;
 				running = 1;
+				printf("m RUN %d\n", n_dirs);
 				qb_loop_run(loop);
 				running = 0;
+				printf("m END\n");
 			}
 		} else if (line[0] == 'H') {
 			char c = line[1];
